@@ -204,6 +204,356 @@ theorem unwrite_cancels (top : Bool) (p : Prog) (l : Nat) (b : B) (hl : simpleLe
   have : res.length + e.length - l = res.length := by omega
   simp [this, c3']
 
+/-! ### 6. fixed-size builders: the exact result -/
+
+/-- a fixed-size builder returns exactly what the growable one returns when that fits the capacity, and an
+    error otherwise (never a panic, never truncated output) -/
+theorem fixed_build_eq (cap : Nat) (pre : Bytes) (p : List Prog) (hs : simpleL p = true) (hpre : pre.length ≤ cap) :
+    build (some cap) pre p = match encL p with
+      | some e => if pre.length + e.length ≤ cap then .ok (pre ++ e) else .err
+      | none => .err := by
+  obtain ⟨b', hr, _, _, hpost⟩ := runL_specC (some cap) true p ⟨pre, false, 0, 0⟩ hs rfl
+    (by simpa [fitsB] using hpre)
+  unfold build
+  rw [hr]
+  cases he : encL p with
+  | none => rw [he] at hpost; simp [hpost]
+  | some e =>
+    rw [he] at hpost
+    simp only [fitsB, decide_eq_true_eq] at hpost
+    by_cases hf : pre.length + e.length ≤ cap
+    · rw [if_pos hf] at hpost; simp [hpost.1, hpost.2, hf]
+    · rw [if_neg hf] at hpost; simp [hpost, hf]
+
+/-- **fixed_err_iff**: Bytes() of a fixed-size builder errs iff the growable run errs or its output exceeds cap -/
+theorem fixed_err_iff (cap : Nat) (pre : Bytes) (p : List Prog) (hs : simpleL p = true) (hpre : pre.length ≤ cap) :
+    build (some cap) pre p = .err ↔
+      build none pre p = .err ∨ ∃ bs, build none pre p = .ok bs ∧ cap < bs.length := by
+  rw [fixed_build_eq cap pre p hs hpre, build_eq_enc pre p hs]
+  cases encL p with
+  | none => simp
+  | some e =>
+    by_cases hf : pre.length + e.length ≤ cap
+    · simp [hf]
+    · simp [hf]; omega
+
+theorem fixed_ok_iff (cap : Nat) (pre : Bytes) (p : List Prog) (bs : Bytes) (hs : simpleL p = true)
+    (hpre : pre.length ≤ cap) :
+    build (some cap) pre p = .ok bs ↔ build none pre p = .ok bs ∧ bs.length ≤ cap := by
+  rw [fixed_build_eq cap pre p hs hpre, build_eq_enc pre p hs]
+  cases encL p with
+  | none => simp
+  | some e =>
+    by_cases hf : pre.length + e.length ≤ cap
+    · simp only [hf, if_true, Result.ok.injEq]
+      constructor
+      · rintro rfl; exact ⟨rfl, by simpa using hf⟩
+      · rintro ⟨rfl, _⟩; rfl
+    · simp only [hf, if_false, Result.ok.injEq, false_iff, not_and, reduceCtorEq]
+      rintro rfl; simpa using hf
+
+/-! ### 7. Unwrite elimination: a program with Unwrite builds what its `mirror` (Unwrite-free) program builds -/
+
+theorem encL_append : ∀ (xs ys : List Prog), encL (xs ++ ys) =
+    match encL xs, encL ys with
+    | some a, some b => some (a ++ b)
+    | _, _ => none
+  | [], ys => by cases h : encL ys <;> simp [encL, h]
+  | x :: xs, ys => by
+    simp only [List.cons_append, encL, encL_append xs ys]
+    cases encP x <;> cases encL xs <;> cases encL ys <;> simp
+
+theorem encL_singleton (p : Prog) : encL [p] = encP p := by
+  simp only [encL]; cases encP p <;> simp
+
+/-- what `popN n` removes: whole directly-written values of total length `n` -/
+theorem popN_spec : ∀ (n : Nat) (stk stk' : List Prog), popN n stk = some stk' →
+    ∃ popped t, stk = popped ++ stk' ∧ encL popped.reverse = some t ∧ t.length = n ∧
+      ∀ x ∈ popped, ∃ e, encP x = some e
+  | 0, stk, stk', h => by
+    simp only [popN, Option.some.injEq] at h; subst h
+    exact ⟨[], [], rfl, rfl, rfl, by simp⟩
+  | n + 1, [], stk', h => by simp [popN] at h
+  | n + 1, p :: stk, stk', h => by
+    simp only [popN] at h
+    cases hl : simpleLen p with
+    | none => simp [hl] at h
+    | some l =>
+      simp only [hl] at h
+      by_cases hle : l ≤ n + 1
+      · rw [if_pos hle] at h
+        obtain ⟨popped, t, h1, h2, h3, h4⟩ := popN_spec (n + 1 - l) stk stk' h
+        obtain ⟨e, he, hel⟩ := encP_leaf p l hl
+        refine ⟨p :: popped, t ++ e, by rw [h1]; rfl, ?_, by simp [h3, hel]; omega, ?_⟩
+        · rw [List.reverse_cons, encL_append, h2, encL_singleton, he]
+        · intro x hx
+          simp only [List.mem_cons] at hx
+          rcases hx with rfl | hx
+          · exact ⟨e, he⟩
+          · exact h4 x hx
+      · rw [if_neg hle] at h; cases h
+termination_by n stk => stk.length
+
+theorem normL_unwrite (n : Int) (ps stk : List Prog) :
+    normL (.unwrite n :: ps) stk = if n < 0 then none else
+      match popN n.toNat stk with
+      | some stk' => normL ps stk'
+      | none => none := by rw [normL]; rfl
+
+theorem normL_cons (p : Prog) (ps stk : List Prog) (h : ∀ n, p ≠ .unwrite n) :
+    normL (p :: ps) stk = match normP p with
+      | some q => normL ps (q :: stk)
+      | none => none := by
+  cases p with
+  | unwrite n => exact absurd rfl (h n)
+  | _ =>
+    rw [normL]
+    all_goals first | (intro n hn; cases hn) | rfl | (split <;> rfl)
+
+/-- once a builder has an error every mirrorable program is a no-op on it -/
+theorem norm_noop (top : Bool) : ∀ (ps stk q : List Prog) (b : B), normL ps stk = some q → b.err = true →
+    runL none top ps b = .ok b
+  | [], _, _, b, _, _ => by simp [runL]
+  | p :: ps, stk, q, b, h, he => by
+    by_cases hu : ∃ n, p = .unwrite n
+    · obtain ⟨n, rfl⟩ := hu
+      rw [normL_unwrite] at h
+      by_cases hn : n < 0
+      · simp [hn] at h
+      · rw [if_neg hn] at h
+        cases hp : popN n.toNat stk with
+        | none => simp [hp] at h
+        | some stk' =>
+          simp only [hp] at h
+          simp [runL, runP, he, norm_noop top ps stk' q b h he]
+    · have hu' : ∀ n, p ≠ .unwrite n := fun n hn => hu ⟨n, hn⟩
+      rw [normL_cons p ps stk hu'] at h
+      cases hp : normP p with
+      | none => simp [hp] at h
+      | some q' =>
+        simp only [hp] at h
+        have hrun : runP none top p b = .ok b := by
+          cases p with
+          | value ok bs => cases ok <;> simp_all [runP, add, normP]
+          | _ => simp_all [runP, add, normP]
+        simp [runL, hrun, norm_noop top ps (q' :: stk) q b h he]
+
+/-- an item that cannot be encoded is never removed by Unwrite elimination -/
+theorem norm_keeps_bad : ∀ (ps stk q : List Prog), normL ps stk = some q → (∃ x ∈ stk, encP x = none) →
+    encL q = none
+  | [], stk, q, h, ⟨x, hx, hbad⟩ => by
+    simp only [normL, Option.some.injEq] at h; subst h
+    exact (encL_none_iff _).mpr ⟨x, by simpa using hx, hbad⟩
+  | p :: ps, stk, q, h, ⟨x, hx, hbad⟩ => by
+    by_cases hu : ∃ n, p = .unwrite n
+    · obtain ⟨n, rfl⟩ := hu
+      rw [normL_unwrite] at h
+      by_cases hn : n < 0
+      · simp [hn] at h
+      · rw [if_neg hn] at h
+        cases hp : popN n.toNat stk with
+        | none => simp [hp] at h
+        | some stk' =>
+          simp only [hp] at h
+          obtain ⟨popped, t, h1, _, _, h4⟩ := popN_spec _ _ _ hp
+          refine norm_keeps_bad ps stk' q h ⟨x, ?_, hbad⟩
+          rw [h1, List.mem_append] at hx
+          rcases hx with hx | hx
+          · obtain ⟨e, he⟩ := h4 x hx; rw [hbad] at he; cases he
+          · exact hx
+    · have hu' : ∀ n, p ≠ .unwrite n := fun n hn => hu ⟨n, hn⟩
+      rw [normL_cons p ps stk hu'] at h
+      cases hp : normP p with
+      | none => simp [hp] at h
+      | some q' =>
+        simp only [hp] at h
+        exact norm_keeps_bad ps (q' :: stk) q h ⟨x, by simp [hx], hbad⟩
+
+
+theorem normP_leaf (p q' : Prog) (h : normP p = some q') (hl : ∀ k body, p ≠ .lp k body) (ha : ∀ t body, p ≠ .asn1 t body) :
+    q' = p ∧ simpleP p = true := by
+  cases p with
+  | lp k body => exact absurd rfl (hl k body)
+  | asn1 t body => exact absurd rfl (ha t body)
+  | value ok bs => cases ok <;> simp_all [normP, simpleP]
+  | _ => simp_all [normP, simpleP]
+
+mutual
+theorem elimP (top : Bool) : (p q' : Prog) → (b : B) → normP p = some q' → b.err = false →
+    ∃ b', runP none top p b = .ok b' ∧ Post b b' (encP q')
+  | .lp k body, q', b, h, he => by
+    simp only [normP] at h
+    cases hb : normL body [] with
+    | none => simp [hb] at h
+    | some qb =>
+      simp only [hb, Option.map_some, Option.some.injEq] at h
+      subst h
+      obtain ⟨c, hc, hoff, hpll, hpost⟩ :=
+        elimL false body [] qb ⟨b.res ++ zeros k, false, b.res.length, k⟩ (b.res ++ zeros k) [] hb rfl rfl
+          (by simp) (by simp [zeros])
+      simp only [runP, he, add, Bool.false_eq_true, if_false, hc, finish]
+      cases henc : encL qb with
+      | none =>
+        rw [henc] at hpost
+        exact ⟨_, flush_err _ _ _ _ hpost, by simp [Post, encP, henc]⟩
+      | some e =>
+        rw [henc] at hpost
+        have hz : (zeros k).length = k := by simp [zeros]
+        have := flush_lp none { b with res := b.res ++ zeros k } c b.res (zeros k) e hpost.1 hoff
+          (by rw [hz]; exact hpll) hpost.2
+        rw [hz] at this
+        simp only [he] at this
+        refine ⟨_, this, ?_⟩
+        by_cases hk : e.length < 256 ^ k
+        · simp [Post, encP, henc, hk]
+        · simp [Post, encP, henc, hk]
+  | .asn1 t body, q', b, h, he => by
+    simp only [normP] at h
+    cases hb : normL body [] with
+    | none => simp [hb] at h
+    | some qb =>
+      simp only [hb, Option.map_some, Option.some.injEq] at h
+      subst h
+      by_cases ht : (t &&& 0x1f == 0x1f) = true
+      · exact ⟨{ b with err := true }, by simp [runP, he, ht], by simp [Post, encP, ht]⟩
+      · obtain ⟨c, hc, hoff, hpll, hpost⟩ :=
+          elimL false body [] qb ⟨b.res ++ [t] ++ zeros 1, false, (b.res ++ [t]).length, 1⟩
+            (b.res ++ [t] ++ zeros 1) [] hb rfl rfl (by simp) (by simp [zeros])
+        simp only [runP, he, add, Bool.false_eq_true, if_false, ht, hc, finish]
+        cases henc : encL qb with
+        | none =>
+          rw [henc] at hpost
+          exact ⟨_, flush_err _ _ _ _ hpost, by simp [Post, encP, henc, ht]⟩
+        | some e =>
+          rw [henc] at hpost
+          have := flush_asn1 { b with res := b.res ++ [t] ++ zeros 1 } c (b.res ++ [t]) e 0 hpost.1 hoff hpll
+            (by simpa [zeros] using hpost.2)
+          simp only [he] at this
+          refine ⟨_, this, ?_⟩
+          by_cases hk : e.length > 0xfffffffe
+          · simp [Post, encP, henc, hk, ht]
+          · simp [Post, encP, henc, hk, ht]
+  | .uint w v, q', b, h, he => by
+    obtain ⟨rfl, hs⟩ := normP_leaf _ q' h (by simp) (by simp)
+    exact runP_spec top _ b hs he
+  | .bytes bs, q', b, h, he => by
+    obtain ⟨rfl, hs⟩ := normP_leaf _ q' h (by simp) (by simp)
+    exact runP_spec top _ b hs he
+  | .value ok bs, q', b, h, he => by
+    obtain ⟨rfl, hs⟩ := normP_leaf _ q' h (by simp) (by simp)
+    exact runP_spec top _ b hs he
+  | .unwrite _, _, _, h, _ => by simp [normP] at h
+  | .seterr, _, _, h, _ => by simp [normP] at h
+  | .throw, _, _, h, _ => by simp [normP] at h
+  | .pwrite, _, _, h, _ => by simp [normP] at h
+/-- `stk` = the values kept so far (most recent first); the buffer is `base` followed by their encoding -/
+theorem elimL (top : Bool) : (ps stk q : List Prog) → (b : B) → (base es : Bytes) →
+    normL ps stk = some q → b.err = false → encL stk.reverse = some es → b.res = base ++ es →
+    b.off + b.pll ≤ base.length →
+    ∃ b', runL none top ps b = .ok b' ∧ b'.off = b.off ∧ b'.pll = b.pll ∧
+      match encL q with
+      | some e => b'.err = false ∧ b'.res = base ++ e
+      | none => b'.err = true
+  | [], stk, q, b, base, es, h, he, hes, hres, _ => by
+    simp only [normL, Option.some.injEq] at h; subst h
+    exact ⟨b, by simp [runL], rfl, rfl, by rw [hes]; exact ⟨he, hres⟩⟩
+  | p :: ps, stk, q, b, base, es, h, he, hes, hres, hwf => by
+    by_cases hu : ∃ n, p = .unwrite n
+    · obtain ⟨n, rfl⟩ := hu
+      rw [normL_unwrite] at h
+      by_cases hn : n < 0
+      · simp [hn] at h
+      · rw [if_neg hn] at h
+        cases hp : popN n.toNat stk with
+        | none => simp [hp] at h
+        | some stk' =>
+          simp only [hp] at h
+          obtain ⟨popped, t, h1, h2, h3, _⟩ := popN_spec _ _ _ hp
+          have hsplit : encL stk.reverse = match encL stk'.reverse, some t with
+              | some a, some b => some (a ++ b) | _, _ => none := by
+            rw [h1, List.reverse_append, encL_append, h2]
+          rw [hes] at hsplit
+          cases hes' : encL stk'.reverse with
+          | none => rw [hes'] at hsplit; simp at hsplit
+          | some es' =>
+            rw [hes'] at hsplit
+            simp only [Option.some.injEq] at hsplit
+            have hlen : b.res.length = base.length + es'.length + n.toNat := by
+              rw [hres, hsplit]; simp [h3]; omega
+            have hrun : runP none top (.unwrite n) b = .ok { b with res := base ++ es' } := by
+              simp only [runP, he, Bool.false_eq_true, if_false, hn]
+              rw [if_neg (by omega), if_neg (by omega)]
+              congr 2
+              rw [hres, hsplit]
+              have : (base ++ (es' ++ t)).length - n.toNat = (base ++ es').length := by
+                simp only [List.length_append, h3]; omega
+              rw [this, ← List.append_assoc, List.take_left' rfl]
+            obtain ⟨b', hb', ho, hpl, hpost⟩ :=
+              elimL top ps stk' q { b with res := base ++ es' } base es' h he hes' rfl hwf
+            exact ⟨b', by simp [runL, hrun, hb'], ho, hpl, hpost⟩
+    · have hu' : ∀ n, p ≠ .unwrite n := fun n hn => hu ⟨n, hn⟩
+      rw [normL_cons p ps stk hu'] at h
+      cases hp : normP p with
+      | none => simp [hp] at h
+      | some q' =>
+        simp only [hp] at h
+        obtain ⟨b1, h1, ho1, hp1, hpost1⟩ := elimP top p q' b hp he
+        cases henc : encP q' with
+        | none =>
+          rw [henc] at hpost1
+          have hno := norm_noop top ps (q' :: stk) q b1 h hpost1
+          have hbad := norm_keeps_bad ps (q' :: stk) q h ⟨q', by simp, henc⟩
+          exact ⟨b1, by simp [runL, h1, hno], ho1, hp1, by rw [hbad]; exact hpost1⟩
+        | some e1 =>
+          rw [henc] at hpost1
+          have hes1 : encL (q' :: stk).reverse = some (es ++ e1) := by
+            rw [List.reverse_cons, encL_append, hes, encL_singleton, henc]
+          obtain ⟨b', hb', ho, hpl, hpost⟩ :=
+            elimL top ps (q' :: stk) q b1 base (es ++ e1) h hpost1.1 hes1
+              (by rw [hpost1.2, hres, List.append_assoc]) (by rw [ho1, hp1]; exact hwf)
+          exact ⟨b', by simp [runL, h1, hb'], by rw [ho, ho1], by rw [hpl, hp1], hpost⟩
+end
+
+
+/-- **Unwrite elimination.**  Whenever the mirrored program `q` exists (every Unwrite removes whole directly
+    written values; no SetError / failing AddValue / panics), the builder run on `p` — Unwrites included —
+    returns exactly the specification encoding of the Unwrite-free `q`. -/
+theorem build_unwrite (pre : Bytes) (p q : List Prog) (hq : mirror pre p = some q) :
+    build none pre p = match encL q with
+      | some e => .ok e
+      | none => .err := by
+  unfold mirror at hq
+  have key : ∃ b', runL none true p ⟨pre, false, 0, 0⟩ = .ok b' ∧ b'.off = 0 ∧ b'.pll = 0 ∧
+      match encL q with
+      | some e => b'.err = false ∧ b'.res = [] ++ e
+      | none => b'.err = true := by
+    by_cases hpre : pre.isEmpty = true
+    · have : pre = [] := by simpa using hpre
+      subst this
+      simp only [List.isEmpty_nil, if_true] at hq
+      exact elimL true p [] q ⟨[], false, 0, 0⟩ [] [] hq rfl rfl rfl (by simp)
+    · rw [if_neg hpre] at hq
+      exact elimL true p [.bytes pre] q ⟨pre, false, 0, 0⟩ [] pre hq rfl (by simp [encL, encP]) (by simp) (by simp)
+  obtain ⟨b', hr, _, _, hpost⟩ := key
+  unfold build
+  rw [hr]
+  cases he : encL q with
+  | none => rw [he] at hpost; simp [hpost]
+  | some e => rw [he] at hpost; simp [hpost.1, hpost.2]
+
+/-- **Round trip for every mirrorable program** (generalises `build_roundtrip` to programs with Unwrite) -/
+theorem build_roundtrip_unwrite (pre : Bytes) (p q : List Prog) (bs : Bytes) (hq : mirror pre p = some q)
+    (hb : build none pre p = .ok bs) (hlen : bs.length ≤ 0xfffffff9) : roundTrips q bs = true := by
+  rw [build_unwrite pre p q hq] at hb
+  cases he : encL q with
+  | none => simp [he] at hb
+  | some e =>
+    simp only [he, Result.ok.injEq] at hb
+    subst hb
+    have := parseL_enc q e [] he hlen
+    rw [List.append_nil] at this
+    simp [roundTrips, this]
+
 /-! ### non-vacuity -/
 
 set_option maxRecDepth 100000 in
